@@ -620,6 +620,10 @@ func spellRoot(root, how string) string {
 		return filepath.Dir(root) + "/./" + filepath.Base(root)
 	case "innerdslash":
 		return filepath.Dir(root) + "//" + filepath.Base(root)
+	case "symlink":
+		// the configured directory is a symbolic link to the real one (made by Reset); only
+		// used where the disclosure bit alone is compared: the walk does not follow it
+		return root + "-link"
 	}
 	return root
 }
@@ -639,7 +643,14 @@ func (s *Sandbox) Reset(tree *Node) error {
 	if err := os.MkdirAll(filepath.Dir(s.Dir), 0755); err != nil {
 		return err
 	}
-	return Materialize(s.Dir, tree)
+	if err := Materialize(s.Dir, tree); err != nil {
+		return err
+	}
+	if s.Spell == "symlink" {
+		real := filepath.Join(append([]string{s.Dir}, s.RootRel...)...)
+		return os.Symlink(real, real+"-link")
+	}
+	return nil
 }
 
 func (s *Sandbox) RootSx() string {
